@@ -224,6 +224,14 @@ Theorem int_roundtrip : forall d z, int_of_tokens (sql_lex d (emit_int z)) = Som
 Proof. exact LiteralProofs.int_roundtrip. Qed.
 Print Assumptions int_roundtrip.
 
+(* ... in any context, negative integers included (a folded negation hands Literal::Integer(-5) to translate_literal;
+   i64::MIN is covered like every other integer): a number token, preceded by a minus-sign token for negatives *)
+Theorem int_any_sign_no_structure_change : forall d z pre suf,
+  closed_prefix d pre = true -> num_boundary suf = true ->
+  sql_lex d (pre ++ emit_int z ++ suf) = sql_lex d pre ++ int_tokens z ++ sql_lex d suf.
+Proof. exact int_z_in_context. Qed.
+Print Assumptions int_any_sign_no_structure_change.
+
 Theorem int_no_structure_change : forall d n pre suf,
   closed_prefix d pre = true -> num_boundary suf = true ->
   sql_lex d (pre ++ digits_of n ++ suf) = sql_lex d pre ++ TNumber (digits_of n) :: sql_lex d suf.
@@ -320,6 +328,27 @@ Theorem interval_count_partial : forall s n u r, lex_interval iunits s = Some (L
                 (base_value 10 (no_us ip) <= I64_MAX -> n = base_value 10 (no_us ip)).
 Proof. exact (lex_interval_count iunits). Qed.
 Print Assumptions interval_count_partial.
+
+(* based literals 0x / 0o / 0b: the integer the lexer produces is the value of the digits it consumed, it fits i64 (the
+   unwrap_or(Integer(0)) fallback is dead), and the literal stops in front of another digit of the base only after the
+   maximal number of digits: the value of the spelling, or the spelling is split in two tokens (which the parser rejects;
+   stream number:boundary checks that on the implementation) *)
+Theorem based_literal_value_or_split : forall prefix base maxd s v r, In (prefix, base, maxd) rows ->
+  based_number (prefix, base, maxd) s = Some (v, r) ->
+  exists us ds, s = prefix ++ us ++ ds ++ r /\ (us = [] \/ us = [95]) /\ ds <> [] /\
+                forallb (digit_ok base) ds = true /\ v = base_value base ds /\ v <= I64_MAX /\
+                (match r with c :: _ => digit_ok base c = true | [] => False end -> length ds = maxd).
+Proof.
+  intros prefix base maxd s v r Hin H.
+  pose proof c08_based_rows_fit as F. rewrite forallb_forall in F.
+  exact (based_value_or_split (prefix, base, maxd) s v r (F _ Hin) H).
+Qed.
+Print Assumptions based_literal_value_or_split.
+
+(* a negative float (folded negation): minus sign and number, two tokens *)
+Theorem float_negative_tokens : forall d m e, sql_lex d (45 :: emit_float m e) = [TPunct 45; TNumber (emit_float m e)].
+Proof. exact emit_float_neg_tokens. Qed.
+Print Assumptions float_negative_tokens.
 
 Theorem bool_roundtrip : forall d b, sql_lex d (emit_bool b) = [TWord (emit_bool b)].
 Proof. exact LiteralProofs.bool_roundtrip. Qed.
